@@ -41,6 +41,18 @@ NATIVE_UNITS = {
     "import_cycle_witness": {"file": "src/interpreter/interpreter.rs", "source": "import_sets.rs",
                              "modpath": "interpreter::interpreter", "test": "verif_native_import_cycle_witness",
                              "role": "witness", "for_fns": ["eval_import_set"]},
+    "vector_kind_witness": {"file": "src/interpreter/interpreter.rs", "source": "vector_builtins.rs",
+                            "modpath": "interpreter::interpreter", "test": "verif_native_vector_kind_witness", "role": "witness",
+                            "for_fns": ["vector_ref", "make_vector", "vector_length", "vector", "car", "cdr", "cons", "is_pair", "not", "apply", "abs", "floor", "ceiling", "exact"]},
+    "vector_panic_witness": {"file": "src/interpreter/interpreter.rs", "source": "vector_builtins.rs",
+                             "modpath": "interpreter::interpreter", "test": "verif_native_vector_panic_witness", "role": "witness",
+                             "for_fns": ["vector_ref", "make_vector", "vector_length", "vector", "car", "cdr", "cons", "is_pair", "not", "apply", "abs", "floor", "ceiling", "exact"]},
+    "vector_identity_witness": {"file": "src/interpreter/interpreter.rs", "source": "vector_builtins.rs",
+                                "modpath": "interpreter::interpreter", "test": "verif_native_vector_identity_witness", "role": "witness",
+                                "for_fns": ["vector_ref", "make_vector", "vector_length", "vector", "as_mut", "ptr_eq"]},
+    "macro_witness": {"file": "src/interpreter/interpreter.rs", "source": "macro_rules.rs",
+                      "modpath": "interpreter::interpreter", "test": "verif_native_macro_witness", "role": "witness",
+                      "for_fns": ["match_datum", "transform"]},
     "tail_arity_panic": {"file": "src/interpreter/interpreter.rs", "source": "tail_arity.rs",
                          "modpath": "interpreter::interpreter", "test": "verif_native_tail_arity_panic",
                          "role": "witness", "for_fns": ["apply_procedure"]},
@@ -115,7 +127,7 @@ PROPS = {
                         "str::parse::<T> is a function of the text (uninterpreted)"],
     },
     "C03": {
-        "verus": ["valref_mut"], "kani": ["valref"], "native": [],
+        "verus": ["valref_mut", "base_pairs"], "kani": ["valref"], "native": ["vector_identity_witness"],
         "level": "other",
         "explanation": "BOUNDED stand-in (vectors of length 3 at element type u8, kani::unwind 6), not a proof: on ValueReference<Vec<T>> -- the "
                        "type Value::Vector is built on -- a clone is the same object (ptr_eq) and a write through either alias is seen "
@@ -124,13 +136,15 @@ PROPS = {
                        "and an immutable reference. The set!/frame half of C03 (LexicalScope over Rc<cell::RefCell<HashMap<String,_>>>) "
                        "is outside both verifiers.",
         "unverified": ["set! and frames: LexicalScope::set/get/define, a fresh child frame per call in apply_scheme_procedure",
-                       "the builtins vector-set!/vector-ref themselves (they take Values; Display for Value on the error path)",
+                       "the builtin vector-set! itself (a write through the shared RefCell: no Verus model; Kani: no result in 10 min) -- "
+                       "covered only by the thorough-tier witness search vector_identity_witness; vector / make-vector / "
+                       "vector-length / vector-ref ARE under contract (unit base_pairs, over a ghost vec_contents)",
                        "vectors longer than 3, element types other than u8 (parametricity in T is not machine-checked)"],
         "assumptions": ["RefCell's dynamic borrow state is not modelled by Verus (a double borrow_mut would panic); Kani executes the real RefCell"],
     },
     "C07": {
         "verus": ["pair_pop", "values_num", "interp_tail", "interp_eval", "repl_complete", "macro_transform", "lexer_pos", "base_cmp", "base_folds", "base_pairs"],
-        "kani": ["values", "folds"], "native": ["panic_probe", "tail_arity_panic"],
+        "kani": ["values", "folds"], "native": ["panic_probe", "tail_arity_panic", "vector_panic_witness"],
         "level": "proof",
         "explanation": "Panic-freedom (no overflow, no failing unwrap/expect, no reachable todo!/unreachable!/panic!, no out-of-bounds index) "
                        "is proved per function for the named set: it is part of what Verus checks when it verifies a function body.",
@@ -159,14 +173,16 @@ PROPS = {
         "assumptions": ["fewer than 2^32 lines and columns (u32 counters)", "std::iter::Peekable::next yields and drops the head of the remaining input"],
     },
     "C04": {
-        "verus": ["macro_transform"], "kani": ["macros"], "native": [],
+        "verus": ["macro_transform", "macro_match"], "kani": ["macros"], "native": ["macro_witness"],
         "level": "proof",
         "explanation": "UserDefinedTransformer::transform is proved, for rule sets and uses of any size, to expand with the FIRST rule "
                        "(in textual order) whose pattern matches and to return the MacroMissMatch syntax error when none matches "
                        "(matcher and template filler as uninterpreted relations); SyntaxPattern::match_datum is proved on scalar "
-                       "patterns: literal data match only equal data, _ matches anything, list/vector patterns never match a scalar.",
-        "unverified": ["match_datum on identifiers (HashSet<String>::contains / HashMap::insert: SipHash under CBMC), sub-lists, vectors and "
-                       "ellipsis (match_datum_stream); template filling (substitude*); String / Real literal data; rule construction "
+                       "patterns: literal data match only equal data, _ matches anything, list/vector patterns never match a scalar. "
+                       "SyntaxPattern::match_datum itself is under contract in Verus (unit macro_match): _ and pattern variables match any form "
+                       "(a variable is bound to exactly that form), a literal identifier matches only the same symbol and binds nothing, literal "
+                       "data match only equal data, any other pairing of a non-list pattern with a datum does not match.",
+        "unverified": ["sub-lists, vectors and ellipsis (match_datum_stream: an uninterpreted relation in unit macro_match); template filling (substitude*); String / Real literal data; rule construction "
                        "(transform_transformer/transform_pattern/transform_template in parser.rs): a breakage confined to these is not detected"],
         "assumptions": ["kani::stub: RandomState::new replaced by fixed keys (no hashing happens on the verified arms)"],
     },
@@ -181,7 +197,7 @@ PROPS = {
         "assumptions": ["functional oracle for the opaque evaluator: one evaluation of the test and two are not distinguished"],
     },
     "C08": {
-        "verus": ["interp_tail", "interp_eval_kind", "values_num", "valref_mut", "base_cmp", "base_pairs"], "kani": ["values"], "native": ["tail_arity_witness", "eval_kind_witness"],
+        "verus": ["interp_tail", "interp_eval_kind", "values_num", "valref_mut", "base_cmp", "base_pairs"], "kani": ["values"], "native": ["tail_arity_witness", "eval_kind_witness", "vector_kind_witness"],
         "level": "proof",
         "explanation": "The argument-count test is proved to hold before EVERY hand-over to apply_scheme_procedure / a builtin body in the "
                        "trampoline loop (first call and every tail call), and an unacceptable count is proved to yield the ArgumentMissMatch "
